@@ -102,8 +102,12 @@ def deep(e):
         q = sorted(set([y for s_ in st for y in (s_ - 1, s_, s_ + 1)] + [-1, d - 1, d, d + 1]))
         idx = []
         for x in q:
-            i = e.get_event_index_at(T(x))
-            evx = e.get_event_at(T(x))
+            try:
+                i = e.get_event_index_at(T(x))
+                evx = e.get_event_at(T(x))
+            except Exception as exc:  # noqa: a lookup that raises is an observation, not a harness failure
+                idx.append("raised-" + type(exc).__name__)
+                continue
             if (i is None) != (evx is None) or (i is not None and evx is not e[i]):
                 idx.append("event-at-differs")
             else:
